@@ -282,13 +282,14 @@ func UpdatePathAggregator4ByteAs(msg *bgp.BGPUpdate) error {
 		return nil
 	}
 
-	if aggAttr == nil && agg4Attr != nil {
-		return bgp.NewMessageError(bgp.BGP_ERROR_UPDATE_MESSAGE_ERROR, bgp.BGP_ERROR_SUB_MALFORMED_ATTRIBUTE_LIST, nil, "AS4 AGGREGATOR attribute exists, but AGGREGATOR doesn't")
-	}
-
 	if agg4Attr != nil {
 		msg.PathAttributes = append(msg.PathAttributes[:agg4AttrPos], msg.PathAttributes[agg4AttrPos+1:]...)
-		aggAttr.Value.AS = agg4Attr.Value.AS
+		// RFC 6793 Section 6: AS4_AGGREGATOR is informational and handled by
+		// "attribute discard"; without an AGGREGATOR to complete there is
+		// nothing to do with it, and nothing to reset the session for.
+		if aggAttr != nil {
+			aggAttr.Value.AS = agg4Attr.Value.AS
+		}
 	}
 	return nil
 }
